@@ -47,7 +47,10 @@ Inductive pop : Type :=
 | PToVec (i : nat) | PVecToArr (i : nat) | PToBox (i : nat) | PBoxIntoVec (i : nat)
 | PBoxIntoSlice (i : nat) | PSliceToBox (i : nat) | PVecToBox (i : nat) | PBoxIter (i : nat)
 | PUnbox (i : nat)
-| PObserve (i : nat).
+| PObserve (i : nat)
+| PTryCollect (i n : nat)         (* GenericArray::<T, n>::try_from_iter(vec.into_iter().filter(..)): Ok only for n = len,
+                                     otherwise LengthError and every element of the Vec is dropped *)
+| PTryCollectBoxed (i n : nat).   (* the same through try_boxed_from_iter *)
 
 (* slot access *)
 Definition get (p : pool) (i : nat) : option obj :=
@@ -244,6 +247,14 @@ Definition step (p : pool) (o : pop) : stepres :=
     match get p i with Some (OBoxArr l) => finish p [i] [OArr l] 0 [] [] | _ => invalid p end
   | PObserve i =>
     match get p i with Some ob => mkStep p [] [] (obj_ids ob) true | None => invalid p end
+  | PTryCollect i n =>
+    match get p i with
+    | Some (OVec l) => if n =? length l then finish p [i] [OArr l] 0 [] [] else finish p [i] [] 0 l []
+    | _ => invalid p end
+  | PTryCollectBoxed i n =>
+    match get p i with
+    | Some (OVec l) => if n =? length l then finish p [i] [OBoxArr l] 0 [] [] else finish p [i] [] 0 l []
+    | _ => invalid p end
   end.
 
 (* a history: per step what was dropped / created / observed; at the end everything left is dropped *)
